@@ -926,6 +926,7 @@ PROPS = {
             {"bin": "d16_zonefile_txt_at_eof", "crate": "replay_net", "finding": "D16"},
             {"bin": "d46_scan_decimal_overflow", "crate": "replay_net", "finding": "D46"},
             {"bin": "d47_unknown_marker_swallows_delimiter", "crate": "replay_net", "finding": "D47"},
+            {"bin": "d61_zonefile_raw_del", "crate": "replay_net", "finding": "D61"},
         ],
         "explanation": "Unit zfinherit (zonefile/inplace.rs, real text of EntryScanner::{scan_owner_record, scan_record, scan_at_record, _scan_entry} and Zonefile::{set_origin, set_default_class}): the inheritance rules behind \"inherited versus explicit owner, TTL and class produce the same records\" -- a record's class is the one written on its line, else the last one stated (an error if none ever was; in validating mode a class other than the last one is refused), and only the first statement is remembered; its TTL is the one written (which later lines then inherit), else the $TTL in effect, else the last TTL stated; an indented line takes the owner of the last line that stated one and leaves it alone, a line with an owner (or `@`, which needs an origin) sets it; nothing else of what later lines inherit changes, and an entry that is not a record changes none of it. the totality half of the statement, for the tokenizer every zone-file read goes through "
                        "(zonefile/inplace.rs::SourceBuf, real text): next_item (white space, parentheses, comments, line ends, quotes) "
